@@ -77,9 +77,15 @@ def gen_program(rnd):
             elif k < 0.5:
                 lines.append("r%d = A[%s][%s] + 0" % (nres, index(0), index(1)))
                 kinds.add("read-row-then-col")
-            elif k < 0.6:
-                lines.append("r%d = A[%s][%d] + 0" % (nres, index(0), rnd.randint(0, shape[1] - 1)))
+            elif k < 0.56:
+                lines.append("r%d = A[%s][%d] + 0" % (nres, index(0), rnd.randint(-shape[1], shape[1] - 1)))
                 kinds.add("read-row-const-col")
+            elif k < 0.6:
+                # a secret row and a public column, counted from either end
+                col = rnd.randint(-shape[1], shape[1] - 1)
+                lines.append("A[%s, %d] = %s" % (index(0), col, elem()))
+                lines.append("r%d = A[%s, %d] + 0" % (nres, index(0), rnd.randint(-shape[1], shape[1] - 1)))
+                kinds.add("write-const-col" + ("-negative" if col < 0 else ""))
             elif k < 0.7:
                 lines.append("r%d = A[%d, %s] + 0" % (nres, rnd.randint(0, shape[0] - 1), index(1)))
                 kinds.add("read-const-row")
@@ -88,7 +94,7 @@ def gen_program(rnd):
                 lines.append("r%d = 0" % nres)
                 kinds.add("write2")
             else:
-                lines.append("A[%d, %s] = %s" % (rnd.randint(0, shape[0] - 1), index(1), elem()))
+                lines.append("A[%d, %s] = %s" % (rnd.randint(-shape[0], shape[0] - 1), index(1), elem()))
                 lines.append("r%d = 0" % nres)
                 kinds.add("write-const-row")
         else:
@@ -100,7 +106,7 @@ def gen_program(rnd):
                 lines.append("r%d = 0" % nres)
                 kinds.add("write")
             else:
-                lines.append("A[%d] = %s" % (rnd.randint(0, shape[0] - 1), elem()))
+                lines.append("A[%d] = %s" % (rnd.randint(-shape[0], shape[0] - 1), elem()))
                 lines.append("r%d = 0" % nres)
                 kinds.add("write-const-index")
         nres += 1
